@@ -17,30 +17,30 @@ Starts == { DayIndex(2024, 2, 26) * DAY,            \* Monday 00:00, two days be
             DayIndex(2024, 1, 31) * DAY + 43080 }   \* 31 January 11:58, inside the firing window
 Kinds == {"task", "analysis"}
 N(k, es) == [kind |-> k, events |-> es]
-Configs1 == { [start |-> s, nodes |-> ("t0.a" :> N(k, es))] : s \in Starts, k \in Kinds, es \in EventSets }
+Configs1 == { [start |-> s, late |-> FALSE, nodes |-> ("t0.a" :> N(k, es))] : s \in Starts, k \in Kinds, es \in EventSets }
 
 Late(n) == [k |-> "dow", n |-> n, t |-> 86370]     \* 23:59:30: a second defer pass on the day of W(n)'s moment
 EventPairs == { <<{B}, {B}>>, <<{B}, {B, W(2)}>>, <<{B, W(2)}, {B}>>, <<{W(2)}, {W(4)}>>, <<{B}, {M(15)}>>, <<{B, M(1)}, {B}>>,
                 <<{W(2)}, {Late(2)}>> }
 KindPairs  == { <<"task", "task">>, <<"task", "analysis">>, <<"analysis", "task">> }
 Starts2    == { DayIndex(2024, 2, 26) * DAY, DayIndex(2024, 2, 28) * DAY + Noon }
-Configs2 == { [start |-> s, nodes |-> ("t0.a" :> N(kp[1], ep[1]) @@ tag :> N(kp[2], ep[2]))] :
+Configs2 == { [start |-> s, late |-> FALSE, nodes |-> ("t0.a" :> N(kp[1], ep[1]) @@ tag :> N(kp[2], ep[2]))] :
                  s \in Starts2, tag \in {"t1.a", "t1.b"}, kp \in KindPairs, ep \in EventPairs }
 
-ConfigsAll   == Configs1 \cup Configs2
-ConfigsSmall == { [start |-> DayIndex(2024, 2, 26) * DAY, nodes |-> ("t0.a" :> N(k, es))] : k \in Kinds, es \in {{W(2)}, {B, M(1)}} }
+ConfigsSmall == { [start |-> DayIndex(2024, 2, 26) * DAY, late |-> FALSE, nodes |-> ("t0.a" :> N(k, es))] : k \in Kinds, es \in {{W(2)}, {B, M(1)}} }
 JumpsStd == {3600, DAY, 7 * DAY, 31 * DAY}
 LatesStd == {600}                      \* a wake-up that runs 10 minutes late: beyond the firing window
-NoLates  == {}
 (* guided instance "a moment passes while defer() cannot act": the pipeline starts on Wednesday 11:52, 480 s before
    the weekly moment (outside the firing window), or on the 15th / the dated day at the same time; the operator may
    hold the pipeline and the clock may move 15 minutes (7 minutes past the moment), wake-ups may be 10 minutes late *)
 LateStart(i) == i * DAY + Noon - 480
-ConfigsLate == { [start |-> LateStart(DayIndex(2024, 2, 28)), nodes |-> ("t0.a" :> N(k, es))] : k \in Kinds, es \in {{W(2)}, {W(2), W(4)}, {B, W(2)}} }
-          \cup { [start |-> LateStart(DayIndex(2024, 2, 15)), nodes |-> ("t0.a" :> N("task", {M(15)}))],
-                 [start |-> LateStart(DayIndex(2024, 2, 29)), nodes |-> ("t0.a" :> N("analysis", {D(DayIndex(2024, 2, 29))}))],
-                 [start |-> LateStart(DayIndex(2024, 2, 28)), nodes |-> ("t0.a" :> N("task", {W(2)}) @@ "t1.b" :> N("analysis", {W(2), W(3)}))] }
+ConfigsLate == { [start |-> LateStart(DayIndex(2024, 2, 28)), late |-> TRUE, nodes |-> ("t0.a" :> N("task", {W(2)}))],
+                 [start |-> LateStart(DayIndex(2024, 2, 28)), late |-> TRUE, nodes |-> ("t0.a" :> N("analysis", {B, W(2)}))] }
+          \cup { [start |-> LateStart(DayIndex(2024, 2, 15)), late |-> TRUE, nodes |-> ("t0.a" :> N("task", {M(15)}))],
+                 [start |-> LateStart(DayIndex(2024, 2, 29)), late |-> TRUE, nodes |-> ("t0.a" :> N("analysis", {D(DayIndex(2024, 2, 29))}))] }
 JumpsLate == {900}
+ConfigsAll   == Configs1 \cup Configs2 \cup ConfigsLate
+ConfigsStd   == Configs1 \cup Configs2
 (* NOT a property: expected to be violated -- a firing more than Window after the moment it is for
    (the non-vacuity witness for C20_CatchUp) *)
 NoLateFiring == \A n \in Nodes : \A m \in AllOcc(n) : ~(m + Window < lastFire[n] /\ lastFire[n] < EndOfDay(m) /\ cfg.start < m)
